@@ -67,7 +67,7 @@ type c03DevSpec struct {
 	Variants int
 }
 
-var c03Devs = []c03DevSpec{{"failure", 3}, {"stream-error", 4}, {"unexpected", 8}, {"malformed", 5}, {"truncated", 4}, {"close", 1}, {"halfclose", 1}}
+var c03Devs = []c03DevSpec{{"failure", 3}, {"stream-error", 4}, {"unexpected", 11}, {"malformed", 5}, {"truncated", 4}, {"close", 1}, {"halfclose", 1}}
 
 func c03DevValid(step string, d peer.Dev) bool {
 	switch step {
@@ -78,7 +78,7 @@ func c03DevValid(step string, d peer.Dev) bool {
 	case "tls":
 		return d.Kind == "close" || d.Kind == "malformed"
 	case "bind", "session":
-		if d.Kind == "unexpected" && d.Variant%8 == 2 {
+		if d.Kind == "unexpected" && d.Variant%11 == 2 {
 			return false // a bare <iq type='result'/> with another id: id matching is not part of the statement
 		}
 	}
@@ -440,7 +440,7 @@ func devString(m map[string]peer.Dev) string {
 
 var c03 = vh.Define(&vh.Def[c03Case]{
 	Property: "C03", Name: "negotiation",
-	Rule: "scripts = client configuration (insecure allowed or not, resource given or not, stream management requested or not, resumable state obtained from a real earlier connection or not) x server features (STARTTLS offered/required/absent, session absent/mandatory/optional, SM offered or not, success variants with extra features, white space and look-alike features from foreign namespaces) x 0-2 deviations drawn from {step} x {failure / stanza error in 3 forms incl. echoed payload, stream error, unexpected element (8), malformed XML (5), truncated element (4), close, half-close}, and in a fifth of the TCP scripts the client's own write of one request (auth / bind / session / enable) fails in a wrapped Transport (nothing or half of it written), which counts as a fault at that step the server never sees; a real Client connects to the scripted peer over TCP (with a real TLS handshake against an in-memory CA) or, in a quarter of the generated scripts, over WebSocket framing (no STARTTLS step); oracle = reference FSM of the negotiation: Connect nil iff no deviation hit a step the client reaches, exactly one SessionEstablished event iff success and none otherwise, the sequence of client requests equals the FSM's sequence and never goes beyond the faulty step, no request is already pending when the peer is about to answer the previous one (3 ms look-ahead, one-directional), Connect returns within the margin, no panic; non-trivial = the script contains a fault or a non-default success variant",
+	Rule: "scripts = client configuration (insecure allowed or not, resource given or not, stream management requested or not, resumable state obtained from a real earlier connection or not) x server features (STARTTLS offered/required/absent, session absent/mandatory/optional, SM offered or not, success variants with extra features, white space and look-alike features from foreign namespaces) x 0-2 deviations drawn from {step} x {failure / stanza error in 3 forms incl. echoed payload, stream error, unexpected element (11, incl. IQs of type get / set / none), malformed XML (5), truncated element (4), close, half-close}, and in a fifth of the TCP scripts the client's own write of one request (auth / bind / session / enable) fails in a wrapped Transport (nothing or half of it written), which counts as a fault at that step the server never sees; a real Client connects to the scripted peer over TCP (with a real TLS handshake against an in-memory CA) or, in a quarter of the generated scripts, over WebSocket framing (no STARTTLS step); oracle = reference FSM of the negotiation: Connect nil iff no deviation hit a step the client reaches, exactly one SessionEstablished event iff success and none otherwise, the sequence of client requests equals the FSM's sequence and never goes beyond the faulty step, no request is already pending when the peer is about to answer the previous one (3 ms look-ahead, one-directional), Connect returns within the margin, no panic; non-trivial = the script contains a fault or a non-default success variant",
 	Quick: 320, Thorough: 8000, Journal: true,
 	Gen: genC03, Run: runC03,
 })
